@@ -8,6 +8,7 @@ import (
 	"os"
 	"sort"
 	"strings"
+	"sync"
 
 	"github.com/kercylan98/vivid/internal/cluster"
 	"github.com/kercylan98/vivid/internal/messages"
@@ -252,6 +253,18 @@ func (h *H) fingerprintOK(sv sessVec) string {
 	if !same(cluster.XVDump(sv.v), sv.want) {
 		return "its map changed"
 	}
+	// the cheap observers
+	if sv.v.Size() != len(sv.want) || sv.v.IsEmpty() != (len(sv.want) == 0) {
+		return fmt.Sprintf("Size/IsEmpty say %d/%v, the vector has %d entries", sv.v.Size(), sv.v.IsEmpty(), len(sv.want))
+	}
+	for k, c := range sv.want {
+		if sv.v.Get(k) != c || !sv.v.ContainsNode(k) {
+			return fmt.Sprintf("Get(%q)=%d ContainsNode=%v, the vector holds %d", k, sv.v.Get(k), sv.v.ContainsNode(k), c)
+		}
+	}
+	if len(sv.v.Nodes()) != len(sv.want) {
+		return fmt.Sprintf("Nodes lists %d nodes, the vector has %d", len(sv.v.Nodes()), len(sv.want))
+	}
 	se := sv.v.SortedEntries()
 	if len(se) != len(sv.want) {
 		return fmt.Sprintf("SortedEntries has %d entries, the vector %d", len(se), len(sv.want))
@@ -283,97 +296,189 @@ func (h *H) fingerprintOK(sv sessVec) string {
 	return ""
 }
 
+// hasCache: does VersionVector still have the sorted-entries cache (fields entries/dirty)? Looked up by reflection in
+// the accessor; when the fields are gone the sessions run without cache observation and the model is told so.
+var hasCache = func() bool { _, _, c, _, _ := cluster.XVIdent(cluster.NewVersionVector()); return c }()
+
+// objTerm is what the heap-level model (coq/Cluster/VVHeap.v, t_obj in VVRun.v) shows of one vector object: its
+// entries, the index of the FIRST object of the pool that uses the same map object (its own index when it shares
+// with none; the empty list for a nil map) and, when the struct has the cache, whether the cache field is nil and
+// whether the cache counts as valid (!dirty && entries != nil).
+func objTerm(pool []sessVec, v cluster.VersionVector) lib.T {
+	id, nilMap, _, entNil, valid := cluster.XVIdent(v)
+	alias := lib.L()
+	if !nilMap {
+		for j, p := range pool {
+			if pid, pnil, _, _, _ := cluster.XVIdent(p.v); !pnil && pid == id {
+				alias = lib.L(lib.NI(j))
+				break
+			}
+		}
+	}
+	if !hasCache {
+		return lib.L(tvec(cluster.XVDump(v)), alias)
+	}
+	return lib.L(tvec(cluster.XVDump(v)), alias, lib.Bool(entNil), lib.Bool(valid))
+}
+
+func entriesTerm(es []cluster.NodeCount) lib.T {
+	xs := make([]lib.T, 0, len(es))
+	for _, e := range es {
+		xs = append(xs, lib.L(lib.S(e.Node), lib.N(e.Count)))
+	}
+	return lib.LS(xs)
+}
+
+// session drives ONE family of vector objects through a history of operations and emits the WHOLE history as one
+// case for the heap-level model (op 8): per step what the step showed (the new object with its aliasing class and
+// flags, an error, an order, the sorted entries, the caller's slice after PruneWithMax) and at the end every object
+// of the pool as it reads then. The monitor operand-modified is evaluated after every step on every object.
 func (h *H) session(r *lib.Rand, steps int) {
 	names := []string{"a", "b", "c", "m", "x", "y", "z", "zz", "zzz"}
 	var pool []sessVec
 	var trace []string
+	var ops, obs []lib.T
 	add := func(v cluster.VersionVector, how string) {
 		pool = append(pool, sessVec{v: v, want: cluster.XVDump(v), how: how})
 		trace = append(trace, fmt.Sprintf("#%d=%s", len(pool)-1, how))
 	}
+	newObs := func(v cluster.VersionVector) lib.T { return lib.L(lib.N(0), objTerm(pool, v)) }
 	base := vec{}
 	for i := 0; i < r.Intn(5); i++ {
-		base[names[r.Intn(4)]] = uint64(1 + r.Intn(3))
+		c := uint64(r.Intn(4)) // explicit zeros included: Compact then has something to drop
+		if r.Chance(1, 12) {
+			c = maxC - uint64(r.Intn(2)) // a counter at / next to the cap: Increment overflows inside the history
+		}
+		base[names[r.Intn(4)]] = c
 	}
 	add(cluster.XVNewVV(base), "new")
+	// step functions: each performs the operation on the real code, records the op and what it showed
+	inc := func(i int, k string) {
+		ops = append(ops, lib.L(lib.N(0), lib.NI(i), lib.S(k)))
+		out, err := pool[i].v.Increment(k)
+		if err != nil {
+			obs = append(obs, lib.Err(errCode(err)))
+			trace = append(trace, fmt.Sprintf("inc(#%d,%q)=err", i, k))
+			return
+		}
+		add(out, fmt.Sprintf("inc(#%d,%s)", i, k))
+		obs = append(obs, newObs(out))
+		if out.Compare(pool[i].v) != cluster.VersionAfter {
+			h.o.Monitor("inc-after", lib.L(lib.N(99), lib.S(strings.Join(trace, " "))), "Increment result is not After its input; history: "+strings.Join(trace, " "))
+		}
+	}
+	decode := func(i int) {
+		ops = append(ops, lib.L(lib.N(3), lib.NI(i)))
+		w := messages.NewWriter()
+		if err := cluster.WriteVersionVector(w, pool[i].v); err != nil {
+			obs = append(obs, lib.Err(errCode(err)))
+			return
+		}
+		bs := append([]byte(nil), w.Bytes()...)
+		out, err := cluster.ReadVersionVector(messages.NewReader(bs))
+		if err != nil {
+			obs = append(obs, lib.Err(errCode(err)))
+			if wf(pool[i].want) {
+				h.o.Monitor("roundtrip", lib.L(lib.N(6), lib.B(bs)), "Read(Write(v)) failed in a session: "+err.Error())
+			}
+			return
+		}
+		add(out, fmt.Sprintf("decode(#%d)", i))
+		obs = append(obs, newObs(out))
+	}
 	for st := 0; st < steps; st++ {
 		i := r.Intn(len(pool))
 		if r.Bool() { // mostly keep working on recent vectors: chains and siblings rather than a bush
 			i = len(pool) - 1 - r.Intn(min(3, len(pool)))
 		}
 		src := pool[i]
-		ta := tvec(src.want)
-		switch r.Intn(8) {
+		switch r.Intn(11) {
 		case 7: // a fan: (optionally through the wire) one increment, then several sibling increments of its result,
 			// every new name sorting after all present ones ('~' > letters)
-			cur, ci := src, i
-			if wf(cur.want) && r.Chance(2, 3) {
-				w := messages.NewWriter()
-				if err := cluster.WriteVersionVector(w, cur.v); err == nil {
-					if out, err := cluster.ReadVersionVector(messages.NewReader(append([]byte(nil), w.Bytes()...))); err == nil {
-						add(out, fmt.Sprintf("decode(#%d)", ci))
-						cur, ci = pool[len(pool)-1], len(pool)-1
+			ci := i
+			if r.Chance(2, 3) {
+				n0 := len(pool)
+				decode(ci)
+				if len(pool) > n0 {
+					ci = len(pool) - 1
+				}
+			}
+			n0 := len(pool)
+			inc(ci, "~a")
+			if len(pool) > n0 {
+				ci = len(pool) - 1
+			}
+			for k := 0; k < 2+r.Intn(2); k++ {
+				inc(ci, "~"+string(rune('b'+k)))
+			}
+		case 0, 1: // increment, often with a name that sorts last; now and then an invalid address
+			k := names[r.Intn(len(names))]
+			if r.Chance(1, 15) {
+				k = ""
+			}
+			inc(i, k)
+		case 2: // merge with another member (possibly itself)
+			j := r.Intn(len(pool))
+			ops = append(ops, lib.L(lib.N(1), lib.NI(i), lib.NI(j)))
+			m := src.v.Merge(pool[j].v)
+			add(m, fmt.Sprintf("merge(#%d,#%d)", i, j))
+			obs = append(obs, newObs(m))
+		case 3:
+			ops = append(ops, lib.L(lib.N(2), lib.NI(i)))
+			c := src.v.Clone()
+			add(c, fmt.Sprintf("clone(#%d)", i))
+			obs = append(obs, newObs(c))
+		case 4: // through the wire: decoded vectors may carry caches fresh ones do not
+			decode(i)
+		case 5: // Compact returns its operand itself when there is nothing to drop: the alias shows in the observation
+			ops = append(ops, lib.L(lib.N(4), lib.NI(i)))
+			out := src.v.Compact()
+			add(out, fmt.Sprintf("compact(#%d)", i))
+			obs = append(obs, newObs(out))
+		case 6: // observers only (they may fill caches)
+			ops = append(ops, lib.L(lib.N(5), lib.NI(i)))
+			se := src.v.SortedEntries()
+			_ = src.v.String()
+			_ = src.v.Nodes()
+			obs = append(obs, lib.L(lib.N(3), entriesTerm(se)))
+			trace = append(trace, fmt.Sprintf("observe(#%d)", i))
+		case 8, 9: // PruneWithMax with the caller's slice, often longer than the limit (the copy-then-sort path)
+			var act []string
+			for _, k := range names {
+				if r.Chance(1, 2) {
+					act = append(act, k)
+					if r.Chance(1, 6) {
+						act = append(act, k)
 					}
 				}
 			}
-			if out, err := cur.v.Increment("~a"); err == nil {
-				h.o.Case("inc", true, lib.L(lib.N(2), tvec(cur.want), lib.S("~a")), lib.Ok(tvec(cluster.XVDump(out))))
-				add(out, fmt.Sprintf("inc(#%d,~a)", ci))
-				cur, ci = pool[len(pool)-1], len(pool)-1
+			r2 := r.Fork()
+			sort.Slice(act, func(a, b int) bool { return r2.Bool() })
+			mx := []int{0, -1, 1, 2, 3, 100000}[r.Intn(6)]
+			ts := make([]lib.T, len(act))
+			for q, s := range act {
+				ts[q] = lib.S(s)
 			}
-			for k := 0; k < 2+r.Intn(2); k++ {
-				name := "~" + string(rune('b'+k))
-				out, err := cur.v.Increment(name)
-				if err != nil {
-					continue
+			ops = append(ops, lib.L(lib.N(6), lib.NI(i), lib.LS(ts), lib.Z(int64(mx))))
+			before := append([]string(nil), act...)
+			out := src.v.PruneWithMax(act, mx)
+			add(out, fmt.Sprintf("prune(#%d,%v,%d)", i, before, mx))
+			after := make([]lib.T, len(act))
+			for q, s := range act {
+				after[q] = lib.S(s)
+			}
+			obs = append(obs, lib.L(lib.N(4), objTerm(pool, out), lib.LS(after)))
+			for q := range before {
+				if before[q] != act[q] {
+					h.o.Monitor("operand-modified", lib.L(lib.N(99), lib.S(strings.Join(trace, " "))), "PruneWithMax reordered the caller's slice; history: "+strings.Join(trace, " "))
+					break
 				}
-				h.o.Case("inc", true, lib.L(lib.N(2), tvec(cur.want), lib.S(name)), lib.Ok(tvec(cluster.XVDump(out))))
-				add(out, fmt.Sprintf("inc(#%d,%s)", ci, name))
 			}
-		case 0, 1: // increment, often with a name that sorts last
-			k := names[r.Intn(len(names))]
-			in := lib.L(lib.N(2), ta, lib.S(k))
-			out, err := src.v.Increment(k)
-			if err != nil {
-				h.o.Case("inc-err", true, in, lib.Err(errCode(err)))
-				continue
-			}
-			h.o.Case("inc", true, in, lib.Ok(tvec(cluster.XVDump(out))))
-			add(out, fmt.Sprintf("inc(#%d,%s)", i, k))
-		case 2: // merge with another member
+		case 10: // Compare two members
 			j := r.Intn(len(pool))
-			in := lib.L(lib.N(1), ta, tvec(pool[j].want))
-			m := src.v.Merge(pool[j].v)
-			h.o.Case("merge", true, in, tvec(cluster.XVDump(m)))
-			add(m, fmt.Sprintf("merge(#%d,#%d)", i, j))
-		case 3:
-			add(src.v.Clone(), fmt.Sprintf("clone(#%d)", i))
-		case 4: // through the wire: decoded vectors may carry caches fresh ones do not
-			if !wf(src.want) {
-				continue
-			}
-			w := messages.NewWriter()
-			if err := cluster.WriteVersionVector(w, src.v); err != nil {
-				continue
-			}
-			bs := append([]byte(nil), w.Bytes()...)
-			h.o.Case("write", true, lib.L(lib.N(5), ta), lib.Ok(lib.B(bs)))
-			out, err := cluster.ReadVersionVector(messages.NewReader(bs))
-			if err != nil {
-				h.o.Monitor("roundtrip", lib.L(lib.N(6), lib.B(bs)), "Read(Write(v)) failed in a session: "+err.Error())
-				continue
-			}
-			add(out, fmt.Sprintf("decode(#%d)", i))
-		case 5:
-			in := lib.L(lib.N(3), ta)
-			out := src.v.Compact()
-			h.o.Case("compact", true, in, tvec(cluster.XVDump(out)))
-			add(out, fmt.Sprintf("compact(#%d)", i))
-		case 6: // observers only (they may fill caches)
-			_ = src.v.SortedEntries()
-			_ = src.v.String()
-			_ = src.v.Nodes()
-			trace = append(trace, fmt.Sprintf("observe(#%d)", i))
+			ops = append(ops, lib.L(lib.N(7), lib.NI(i), lib.NI(j)))
+			obs = append(obs, lib.L(lib.N(2), lib.N(uint64(src.v.Compare(pool[j].v)))))
+			trace = append(trace, fmt.Sprintf("compare(#%d,#%d)", i, j))
 		}
 		for j, sv := range pool {
 			if why := h.fingerprintOK(sv); why != "" {
@@ -382,6 +487,330 @@ func (h *H) session(r *lib.Rand, steps int) {
 			}
 		}
 	}
+	final := make([]lib.T, len(pool))
+	for j, sv := range pool {
+		final[j] = objTerm(pool, sv.v)
+	}
+	h.o.Case("session", true, lib.L(lib.N(8), lib.Bool(hasCache), tvec(base), lib.LS(ops)), lib.L(lib.LS(obs), lib.LS(final)))
+	h.o.Stats["session-steps"] += len(ops)
+}
+
+// atomicScript drives one AtomicVersionVector SEQUENTIALLY through a script (model: op 9 of run_vv, heap model of the
+// pointer-based wrapper). Every call runs under recover (a panic is a monitor hit panic:atomic-*). Vectors handed to
+// Store and obtained from Load are kept and must never change afterwards (operand-modified).
+func (h *H) atomicScript(r *lib.Rand, steps int) {
+	names := []string{"a", "b", "c", ""}
+	small := func() vec {
+		m := vec{}
+		for i := 0; i < r.Intn(4); i++ {
+			c := uint64(r.Intn(3))
+			if r.Chance(1, 10) {
+				c = maxC - uint64(r.Intn(2))
+			}
+			m[names[r.Intn(3)]] = c
+		}
+		return m
+	}
+	nilInit := r.Chance(1, 6)
+	init := small()
+	var initV cluster.VersionVector
+	if nilInit {
+		initV = cluster.XVNilVV()
+		init = vec{}
+	} else {
+		initV = cluster.XVNewVV(init)
+	}
+	avv := cluster.NewAtomicVersionVector(initV)
+	var held []sessVec
+	hold := func(v cluster.VersionVector, how string) {
+		held = append(held, sessVec{v: v, want: cluster.XVDump(v), how: how})
+	}
+	if !nilInit {
+		hold(initV, "initial")
+	}
+	cur := func() lib.T { return tvec(cluster.XVDump(avv.Load())) }
+	var ops []lib.T
+	obs := []lib.T{cur()}
+	var trace []string
+	in := func() lib.T { return lib.L(lib.N(9), lib.Bool(nilInit), tvec(init), lib.LS(ops)) }
+	guarded := func(what string, f func() lib.T) (res lib.T) {
+		defer func() {
+			if rec := recover(); rec != nil {
+				res = lib.L(lib.N(1))
+				h.o.Monitor("panic:atomic-"+what, in(), fmt.Sprintf("AtomicVersionVector.%s panicked: %v; script: %s", what, rec, strings.Join(trace, " ")))
+			}
+		}()
+		return lib.L(lib.N(0), f())
+	}
+	for st := 0; st < steps; st++ {
+		var res lib.T
+		switch r.Intn(8) {
+		case 0:
+			ops = append(ops, lib.L(lib.N(0)))
+			trace = append(trace, "load")
+			res = lib.L(lib.N(0))
+			guarded("load", func() lib.T { hold(avv.Load(), fmt.Sprintf("load@%d", st)); return lib.N(0) })
+		case 1:
+			m := small()
+			ops = append(ops, lib.L(lib.N(1), tvec(m)))
+			trace = append(trace, fmt.Sprintf("store(%v)", m))
+			v := cluster.XVNewVV(m)
+			hold(v, fmt.Sprintf("stored@%d", st))
+			res = lib.L(lib.N(0))
+			guarded("store", func() lib.T { avv.Store(v); return lib.N(0) })
+		case 2: // CompareAndSwap with an arbitrary old (Equal now and then: explicit zeros count as absent)
+			o, n := small(), small()
+			ops = append(ops, lib.L(lib.N(2), tvec(o), tvec(n)))
+			trace = append(trace, fmt.Sprintf("cas(%v,%v)", o, n))
+			vo, vn := cluster.XVNewVV(o), cluster.XVNewVV(n)
+			hold(vn, fmt.Sprintf("cas-new@%d", st))
+			res = guarded("cas", func() lib.T { return lib.Bool(avv.CompareAndSwap(vo, vn)) })
+		case 3: // old = the current value: must swap
+			n := small()
+			ops = append(ops, lib.L(lib.N(3), tvec(n)))
+			trace = append(trace, fmt.Sprintf("cas(current,%v)", n))
+			vn := cluster.XVNewVV(n)
+			hold(vn, fmt.Sprintf("cas-new@%d", st))
+			res = guarded("cas", func() lib.T {
+				ok := avv.CompareAndSwap(avv.Load(), vn)
+				if !ok {
+					h.o.Monitor("atomic-cas-equal-refused", in(), "CompareAndSwap(Load(), new) returned false with no other writer; script: "+strings.Join(trace, " "))
+				}
+				return lib.Bool(ok)
+			})
+		case 4: // old = the vector the wrapper was created with: stale after any write that changed the value
+			n := small()
+			ops = append(ops, lib.L(lib.N(5), tvec(n)))
+			trace = append(trace, fmt.Sprintf("cas(initial,%v)", n))
+			vn := cluster.XVNewVV(n)
+			hold(vn, fmt.Sprintf("cas-new@%d", st))
+			res = guarded("cas", func() lib.T { return lib.Bool(avv.CompareAndSwap(initV, vn)) })
+		default:
+			k := names[r.Intn(len(names))]
+			ops = append(ops, lib.L(lib.N(4), lib.S(k)))
+			trace = append(trace, fmt.Sprintf("inc(%q)", k))
+			before := avv.Load()
+			res = guarded("increment", func() lib.T {
+				out, err := avv.Increment(k)
+				if err != nil {
+					if avv.Load().Compare(before) != cluster.VersionEqual {
+						h.o.Monitor("atomic-error-changed-cell", in(), "AtomicVersionVector.Increment returned an error and the stored vector changed; script: "+strings.Join(trace, " "))
+					}
+					return lib.Err(errCode(err))
+				}
+				hold(out, fmt.Sprintf("atomic-inc@%d", st))
+				if out.Compare(before) != cluster.VersionAfter || out.Get(k) != before.Get(k)+1 {
+					h.o.Monitor("inc-after", in(), "AtomicVersionVector.Increment returned a vector that is not the stored one plus one on the node; script: "+strings.Join(trace, " "))
+				}
+				if !same(cluster.XVDump(avv.Load()), cluster.XVDump(out)) {
+					h.o.Monitor("atomic-inc-not-stored", in(), "after AtomicVersionVector.Increment the wrapper does not hold the returned vector; script: "+strings.Join(trace, " "))
+				}
+				return lib.Ok(tvec(cluster.XVDump(out)))
+			})
+		}
+		obs = append(obs, lib.L(res, cur()))
+		for j, sv := range held {
+			if why := h.fingerprintOK(sv); why != "" {
+				h.o.Monitor("operand-modified", in(), fmt.Sprintf("vector %d (%s) handed to / obtained from an AtomicVersionVector no longer shows the value it had: %s; script: %s", j, sv.how, why, strings.Join(trace, " ")))
+				return
+			}
+		}
+	}
+	h.o.Case("atomic", true, in(), lib.LS(obs))
+}
+
+// atomicConcurrent: N goroutines, each running M Increment(node) calls on ONE AtomicVersionVector, really concurrently
+// (uncontrolled schedule). No lost update: the final counter of every node = its initial counter + the number of
+// successful calls on it (monitor atomic-lost-update); every returned vector carries a counter that grows strictly
+// within one goroutine and is After what was loaded before; no call panics. The final vector and the per-node numbers
+// of successes / errors do not depend on the schedule (theorem C16_atomic_no_lost_update) and are a model case (op 10).
+func (h *H) atomicConcurrent(r *lib.Rand, nThreads, perThread int) {
+	nodes := []string{"a", "b", "c", ""}
+	init := vec{}
+	for i := 0; i < r.Intn(3); i++ {
+		c := uint64(r.Intn(5))
+		if r.Chance(1, 6) {
+			c = maxC - uint64(r.Intn(4)) // the cap is reached in the middle of the run: the remaining calls must fail
+		}
+		init[nodes[r.Intn(3)]] = c
+	}
+	avv := cluster.NewAtomicVersionVector(cluster.XVNewVV(init))
+	type plan struct {
+		node string
+		todo int
+	}
+	plans := make([]plan, nThreads)
+	ths := make([]lib.T, nThreads)
+	for i := range plans {
+		plans[i] = plan{nodes[r.Intn(len(nodes))], 1 + r.Intn(perThread)}
+		if r.Chance(4, 5) {
+			plans[i].node = nodes[r.Intn(2)] // mostly contend on two nodes
+		}
+		ths[i] = lib.L(lib.S(plans[i].node), lib.NI(plans[i].todo))
+	}
+	in := lib.L(lib.N(10), tvec(init), lib.LS(ths))
+	type result struct {
+		succ, errs int
+		bad        string
+	}
+	res := make([]result, nThreads)
+	var wg sync.WaitGroup
+	start := make(chan struct{})
+	for i := range plans {
+		wg.Add(1)
+		go func(i int) {
+			defer wg.Done()
+			defer func() {
+				if rec := recover(); rec != nil {
+					res[i].bad = fmt.Sprintf("panic: %v", rec)
+				}
+			}()
+			<-start
+			last := uint64(0)
+			for c := 0; c < plans[i].todo; c++ {
+				before := avv.Load()
+				out, err := avv.Increment(plans[i].node)
+				if err != nil {
+					res[i].errs++
+					continue
+				}
+				res[i].succ++
+				g := out.Get(plans[i].node)
+				if res[i].succ > 1 && g <= last {
+					res[i].bad = fmt.Sprintf("two successive successful Increment(%q) of one goroutine returned counters %d then %d", plans[i].node, last, g)
+				}
+				last = g
+				if o := out.Compare(before); o != cluster.VersionAfter {
+					res[i].bad = fmt.Sprintf("Increment(%q) returned a vector that is not After the vector loaded just before the call (order %d)", plans[i].node, o)
+				}
+			}
+		}(i)
+	}
+	close(start)
+	wg.Wait()
+	final := cluster.XVDump(avv.Load())
+	succ, errs := map[string]int{}, map[string]int{}
+	for i, p := range plans {
+		succ[p.node] += res[i].succ
+		errs[p.node] += res[i].errs
+		if res[i].bad != "" {
+			name := "inc-after"
+			if strings.HasPrefix(res[i].bad, "panic") {
+				name = "panic:atomic-increment"
+			}
+			h.o.Monitor(name, in, "concurrent AtomicVersionVector.Increment: "+res[i].bad)
+		}
+	}
+	keys := make([]string, 0, len(succ))
+	for k := range succ {
+		keys = append(keys, k)
+	}
+	sort.Strings(keys)
+	per := make([]lib.T, 0, len(keys))
+	for _, k := range keys {
+		per = append(per, lib.L(lib.S(k), lib.NI(succ[k]), lib.NI(errs[k])))
+		if final[k] != init[k]+uint64(succ[k]) {
+			h.o.Monitor("atomic-lost-update", in, fmt.Sprintf("node %q: initial counter %d, %d successful Increment calls, final counter %d", k, init[k], succ[k], final[k]))
+		}
+	}
+	for k, c := range final {
+		if _, touched := succ[k]; !touched && c != init[k] {
+			h.o.Monitor("atomic-lost-update", in, fmt.Sprintf("node %q was not incremented by anybody and went from %d to %d", k, init[k], c))
+		}
+	}
+	h.o.Case("atomic-concurrent", true, in, lib.L(tvec(final), lib.LS(per)))
+	h.o.Stats["atomic-concurrent-calls"] += func() int {
+		n := 0
+		for _, p := range plans {
+			n += p.todo
+		}
+		return n
+	}()
+}
+
+// boundaries: the caps on BOTH sides. (1) counters around 2^63-1: whatever Increment produces must survive
+// Write/Read, and the reader's verdict on a one-entry encoding is compared with the model for every boundary
+// counter; (2) the entry cap: 65534 / 65535 entries round-trip, the writer refuses 65536, the reader refuses a
+// header announcing 65536 (model cases on headers only: the extracted model is quadratic in the entry count).
+func (h *H) boundaries() {
+	for _, k := range []string{"n", string(make([]byte, 256)), "node-1:8080"} {
+		for _, c := range []uint64{0, 1, maxC - 2, maxC - 1, maxC, maxC + 1, ^uint64(0) - 1, ^uint64(0)} {
+			a := vec{k: c, "other": 7}
+			va := cluster.XVNewVV(a)
+			in := lib.L(lib.N(2), tvec(a), lib.S(k))
+			h.guard("boundary-inc", in, func() {
+				out, err := va.Increment(k)
+				if err != nil {
+					h.o.Case("inc-err", true, in, lib.Err(errCode(err)))
+				} else {
+					d := cluster.XVDump(out)
+					h.o.Case("inc", true, in, lib.Ok(tvec(d)))
+					if out.Compare(va) != cluster.VersionAfter {
+						h.o.Monitor("inc-after", in, "Increment result is not After its input")
+					}
+					// the wire must accept every vector Increment can produce
+					w := messages.NewWriter()
+					if werr := cluster.WriteVersionVector(w, out); werr != nil {
+						h.o.Monitor("inc-wire-boundary", in, "Increment produced a vector the writer refuses: "+werr.Error())
+					} else {
+						bs := append([]byte(nil), w.Bytes()...)
+						back, rerr := cluster.ReadVersionVector(messages.NewReader(bs))
+						if rerr != nil {
+							h.o.Monitor("inc-wire-boundary", in, "Increment produced a vector the reader refuses: "+rerr.Error())
+						} else if !same(cluster.XVDump(back), d) {
+							h.o.Monitor("inc-wire-boundary", in, "Increment produced a vector that changes on the wire")
+						}
+					}
+				}
+			})
+			// the reader alone, on the one-entry encoding of (k, c)
+			w := messages.NewWriter()
+			w.WriteUint32(1)
+			w.WriteString(k)
+			w.WriteUint64(c)
+			h.read(append([]byte(nil), w.Bytes()...), nil, false)
+			// and the writer alone
+			h.guard("boundary-write", lib.L(lib.N(5), tvec(a)), func() {
+				w := messages.NewWriter()
+				if err := cluster.WriteVersionVector(w, va); err != nil {
+					h.o.Case("write-err", true, lib.L(lib.N(5), tvec(a)), lib.Err(errCode(err)))
+				} else {
+					bs := append([]byte(nil), w.Bytes()...)
+					h.o.Case("write", true, lib.L(lib.N(5), tvec(a)), lib.Ok(lib.B(bs)))
+					h.read(bs, a, wf(a))
+				}
+			})
+		}
+	}
+	// entry cap
+	big := vec{}
+	for i := 0; i < 65536; i++ {
+		big[fmt.Sprintf("n%05d", i)] = uint64(i)
+	}
+	h.capBoundary(big, true)
+	delete(big, "n00000")
+	h.capBoundary(big, false)
+	// Increment has no entry cap: a 65535-entry vector incremented at a new node has 65536 entries, which the
+	// writer refuses (theorem C16_increment_beyond_entry_cap). Recorded, not judged: the cap is a documented limit.
+	if out, err := cluster.XVNewVV(big).Increment("zz-new"); err == nil {
+		werr := cluster.WriteVersionVector(messages.NewWriter(), out)
+		h.o.Info["increment_beyond_entry_cap"] = fmt.Sprintf("Increment of a 65535-entry vector at a new node: %d entries, WriteVersionVector error: %v", out.Size(), werr)
+		if werr == nil {
+			h.o.Monitor("cap-not-enforced", lib.L(lib.N(5), lib.NI(out.Size())), "WriteVersionVector accepted a vector of more than 65535 entries")
+		}
+	}
+	delete(big, "n00001")
+	h.capBoundary(big, false)
+	// headers announcing n entries with no / one entry behind them
+	for _, n := range []uint32{0, 1, 65534, 65535, 65536, 65537, 1 << 31, ^uint32(0)} {
+		w := messages.NewWriter()
+		w.WriteUint32(n)
+		h.read(append([]byte(nil), w.Bytes()...), nil, false)
+		w.WriteString("k")
+		w.WriteUint64(5)
+		h.read(append([]byte(nil), w.Bytes()...), nil, false)
+	}
+	h.o.Info["cap_boundary"] = "65536 entries refused by writer and reader, 65535 and 65534 entries round-trip (implementation-side monitors; headers against the model)"
 }
 
 func (h *H) read(bs []byte, orig vec, expectOrig bool) {
@@ -509,7 +938,7 @@ func randVec(r *lib.Rand, names []string) vec {
 func main() {
 	f := lib.ParseFlags()
 	o := lib.NewOut(f.Out)
-	h := &H{o}
+	h := &H{o: o}
 	r := lib.NewRand(f.Seed)
 	sm := small()
 	names := []string{"a", "b", "c", "d", ""}
@@ -563,15 +992,9 @@ func main() {
 			mid[fmt.Sprintf("n%05d", i)] = uint64(i)
 		}
 		h.unary(mid, r, []string{"n00000", "n02999", "zz"})
-		big := vec{}
-		for i := 0; i < 65536; i++ {
-			big[fmt.Sprintf("n%05d", i)] = uint64(i)
-		}
-		h.capBoundary(big, true)
-		delete(big, "n00000")
-		h.capBoundary(big, false)
-		o.Info["cap_boundary"] = "65536 entries refused, 65535 entries round-trip: implementation-side monitors only"
 	}
+	// the caps on both sides (counter 2^63-1, 65535 entries, 256-byte addresses)
+	h.boundaries()
 	// histories over one family of vector objects (aliasing between a vector and its derivatives)
 	ns := 150
 	if f.Tier == "thorough" {
@@ -581,6 +1004,37 @@ func main() {
 		h.session(r, 6+r.Intn(14))
 	}
 	o.Info["sessions"] = ns
+	if hasCache {
+		o.Info["cache_observation"] = "on: fields entries/dirty present, every session object reports (entries == nil, !dirty && entries != nil)"
+	} else {
+		o.Info["cache_observation"] = "off: VersionVector has no entries/dirty fields in this tree; aliasing classes and values are still observed"
+	}
+	// AtomicVersionVector scripts
+	na := 120
+	if f.Tier == "thorough" {
+		na = 3000
+	}
+	for i := 0; i < na; i++ {
+		h.atomicScript(r, 3+r.Intn(8))
+	}
+	o.Info["atomic_scripts"] = na
+	// ... and concurrently: N goroutines x up to M Increment calls each
+	nc := 40
+	if f.Tier == "thorough" {
+		nc = 600
+	}
+	for i := 0; i < nc; i++ {
+		h.atomicConcurrent(r, 2+r.Intn(7), 4+r.Intn(40))
+	}
+	// a few long runs: enough calls per goroutine for the loops to really overlap
+	nh := 3
+	if f.Tier == "thorough" {
+		nh = 20
+	}
+	for i := 0; i < nh; i++ {
+		h.atomicConcurrent(r, 8, 400)
+	}
+	o.Info["atomic_concurrent_runs"] = fmt.Sprintf("%d short (2-8 goroutines x up to 43 calls) + %d long (8 goroutines x up to 400 calls)", nc, nh)
 	// raw garbage through the reader
 	for i := 0; i < n/2; i++ {
 		bs := r.Bytes(r.Intn(40))
